@@ -231,7 +231,12 @@ where
                     let node_len = bytes.get_u64() as usize;
                     let lane_len = bytes.get_u64() as usize;
 
-                    if bytes.remaining() < host_len + node_len + lane_len + ID_LEN {
+                    let required = host_len
+                        .checked_add(node_len)
+                        .and_then(|n| n.checked_add(lane_len))
+                        .and_then(|n| n.checked_add(ID_LEN))
+                        .ok_or_else(bad_header_lengths)?;
+                    if bytes.remaining() < required {
                         *state = DecoderState::ReadingRegistration(flags);
                         break Ok(None);
                     }
@@ -284,7 +289,11 @@ where
                     let node_len = bytes.get_u64() as usize;
                     let lane_len = bytes.get_u64() as usize;
 
-                    if bytes.remaining() < host_len + node_len + lane_len {
+                    let required = host_len
+                        .checked_add(node_len)
+                        .and_then(|n| n.checked_add(lane_len))
+                        .ok_or_else(bad_header_lengths)?;
+                    if bytes.remaining() < required {
                         *state = DecoderState::ReadingAddressedHeader(flags);
                         break Ok(None);
                     }
@@ -337,6 +346,12 @@ where
             }
         }
     }
+}
+
+fn bad_header_lengths() -> FrameIoError {
+    FrameIoError::BadFrame(swimos_api::error::InvalidFrame::InvalidHeader {
+        problem: Text::new("Ad-hoc message header lengths are too large."),
+    })
 }
 
 fn try_extract_utf8<S: TryFromUtf8Bytes>(
